@@ -211,9 +211,11 @@ func runC10(c *sim.Ctx) *sim.Violation {
 	}
 	// (2) a writer that refuses
 	var E error
-	E, _ = link.NewFaultErr(c, fmt.Sprintf("writer failure #%d", c.Seq()))
+	fe, _ := link.NewFaultErr(c, fmt.Sprintf("writer failure #%d", c.Seq()))
+	E = fe
+	wireE := fe.Wire()
 	w2 := link.NewWriter(c)
-	w2.Kind, w2.Err = 1, E
+	w2.Kind, w2.Err = 1, wireE
 	if pi := sim.Guard(func() { n, err = p.WriteTo(wr(w2)) }); pi != nil {
 		return sim.V("C10/"+typ+"/panic:"+pi.Site, "WriteTo(refusing writer) panicked: %s", pi.Value)
 	}
@@ -242,7 +244,7 @@ func runC10(c *sim.Ctx) *sim.Violation {
 	transient := t.Bool(1, 3)
 	for _, k := range ks {
 		w3 := link.NewWriter(c)
-		w3.Kind, w3.K, w3.Err = 2, k, E
+		w3.Kind, w3.K, w3.Err = 2, k, wireE
 		if transient {
 			// the writer fails once and would accept everything afterwards: the
 			// error must still be returned, with the count accepted when it happened
